@@ -541,6 +541,53 @@ class VN:
         return Poly.atom(("red", name, base.key(), ak) + extra)
 
 
+RAISES = object()
+
+
+def path_values(prog, f, stmts=None, inline=0, skip=None, limit=64):
+    """
+    every control-flow path through a function body made of assignments, if/elif/else, return and raise:
+    list of (conditions, value) with conditions = [(test text, taken), ...] (a leading `not` is folded into `taken`; the conjuncts of a taken `and`
+    are listed too) and value = normal form of the returned expression, RAISES for a raising path, None when the path falls off the end.
+    """
+    from .model import body_nodoc
+    stmts = body_nodoc(f.node) if stmts is None else stmts
+    out = []
+
+    def cond_items(test, taken):
+        items = []
+        t = test
+        while isinstance(t, ast.UnaryOp) and isinstance(t.op, ast.Not):
+            t, taken = t.operand, not taken
+        items.append((dump(t), taken))
+        if isinstance(t, ast.BoolOp) and ((isinstance(t.op, ast.And) and taken) or (isinstance(t.op, ast.Or) and not taken)):
+            for v in t.values:
+                items += cond_items(v, taken)
+        return items
+
+    def run(sts, env, conds):
+        if len(out) > limit:
+            raise VNUnknown("too many paths")
+        vn = VN(prog, f, env, inline=inline, skip=skip)
+        for i, st in enumerate(sts):
+            if isinstance(st, ast.If):
+                for branch, taken in ((st.body, True), (st.orelse, False)):
+                    run(list(branch) + list(sts[i + 1:]), dict(vn.env), conds + cond_items(st.test, taken))
+                return
+            if isinstance(st, ast.Raise):
+                out.append((conds, RAISES))
+                return
+            if isinstance(st, ast.Return):
+                out.append((conds, vn.expr(st.value) if st.value is not None else None))
+                return
+            if isinstance(st, ast.Expr):
+                continue
+            vn.stmt(st)
+        out.append((conds, None))
+    run(list(stmts), {}, [])
+    return out
+
+
 def normalise_function(prog, f, env=None, selfname="self"):
     """straight-line function body -> Poly (or list of Poly for tuple returns)"""
     from .model import body_nodoc
